@@ -20,6 +20,7 @@ type StmtKey struct {
 	Form string `json:"form"`
 	A    string `json:"a"`
 	B    string `json:"b"`
+	Dev  string `json:"dev"` // recorded deviation of the implementation that applies to this instance ("" = none)
 }
 
 func (k StmtKey) String() string { return k.Cls + "." + k.Form }
@@ -323,7 +324,8 @@ func Unclassified(stmtTypes, classes []string) (missing []string, stale []string
 func AstOnly() map[string]string { return astOnly }
 
 // Sig is the signature of "ran although not allowed".
-// predicted: the implementation model (with its recorded deviations) expected the execution.
+// predicted: the implementation model (with its recorded deviations) expected the execution; the
+// signature then names the deviation and the statement form it belongs to.
 func Sig(g Group, predicted bool, level string) string {
 	var ks []string
 	for _, k := range g.Stmts {
@@ -334,9 +336,40 @@ func Sig(g Group, predicted bool, level string) string {
 		what = "write"
 	}
 	if predicted {
-		d := append([]string(nil), g.Devs...)
-		sort.Strings(d)
-		return "dev:" + strings.Join(d, "+") + ":" + what
+		for _, k := range g.Stmts {
+			if k.Dev != "" {
+				return "dev:" + k.Dev + ":" + k.String()
+			}
+		}
+		if g.World == "noUsers" && len(g.Stmts) > 1 {
+			return "dev:firstAdminMulti:" + g.Stmts[0].String()
+		}
+		return "dev:?:" + what
 	}
 	return fmt.Sprintf("%s:ran-not-allowed:%s:%s:%s", level, g.World, g.CC, what)
+}
+
+// MaxSigs bounds the number of distinct unpredicted mismatch signatures a driver reports (each one
+// is re-run on its own by the orchestrator).  Signatures of recorded deviations ("dev:") are bounded
+// by the model's table and always reported.
+const MaxSigs = 12
+
+// Report says whether a mismatch with this signature is to be reported (first occurrence, within the bound).
+func Report(seen map[string]bool, sig string) bool {
+	if seen[sig] {
+		return false
+	}
+	if !strings.HasPrefix(sig, "dev:") {
+		n := 0
+		for s := range seen {
+			if !strings.HasPrefix(s, "dev:") {
+				n++
+			}
+		}
+		if n >= MaxSigs {
+			return false
+		}
+	}
+	seen[sig] = true
+	return true
 }
